@@ -239,7 +239,7 @@ static Outcome run_in_child(const Scenario& s, const Plan& plan, bool verbose_ch
     char b[128];
     snprintf(b, sizeof b, "E 0 %016llx %d %llu\n", (unsigned long long)r.hash, r.nontrivial ? 1 : 0, (unsigned long long)r.steps);
     emit_result_line(b);
-    _exit(0);
+    hard_exit(0);
   }
   close(pfd[1]);
   std::string data;
@@ -407,6 +407,7 @@ struct Worker {
   bool done = false;
   std::string errpath;
   std::string breadcrumb;
+  bool violation_reported = false;
 };
 
 struct CheckState {
@@ -454,7 +455,7 @@ static void worker_main(const CheckState& cs, int w, size_t start_pos, int out_f
   }
   dump_counters();
   emit_result_line("D\n");
-  _exit(0);
+  hard_exit(0);
 }
 
 static void spawn_worker(const CheckState& cs, Worker& w) {
@@ -468,10 +469,10 @@ static void spawn_worker(const CheckState& cs, Worker& w) {
     int efd = open(w.errpath.c_str(), O_WRONLY | O_CREAT | O_TRUNC, 0666);
     if (efd >= 0) { dup2(efd, 2); close(efd); }
     worker_main(cs, w.id, w.next_pos, pfd[1]);
-    _exit(0);
+    hard_exit(0);
   }
   close(pfd[1]);
-  w.pid = pid; w.fd = pfd[0]; w.buf.clear(); w.current = -1; w.done = false;
+  w.pid = pid; w.fd = pfd[0]; w.buf.clear(); w.current = -1; w.done = false; w.violation_reported = false;
 }
 
 struct Violation { size_t index; std::string cls, detail; uint64_t hash; std::string breadcrumb; };
@@ -612,6 +613,7 @@ static int cmd_check(int argc, char** argv) {
             Outcome o; parse_result_lines(line + "\n", o, nullptr);
             size_t i = 0; sscanf(line.c_str(), "V %zu", &i);
             current_breadcrumb = w.breadcrumb;
+            w.violation_reported = true;
             handle_violation(i, o.cls, unescape_detail(o.detail), o.hash);
             break;
           }
@@ -635,7 +637,7 @@ static int cmd_check(int argc, char** argv) {
         close(w.fd); w.fd = -1;
         bool clean = w.done && WIFEXITED(status) && WEXITSTATUS(status) == 0;
         bool reported = WIFEXITED(status) && WEXITSTATUS(status) == 3;
-        if (!clean && !reported && w.current >= 0 && !(stop && WIFSIGNALED(status) && WTERMSIG(status) == SIGKILL)) {
+        if (!clean && !reported && !w.violation_reported && w.current >= 0 && !(stop && WIFSIGNALED(status) && WTERMSIG(status) == SIGKILL)) {
           std::string text = tail_of_file(w.errpath, 200000);
           std::string detail;
           std::string cls = classify_sanitizer_text(text, &detail);
@@ -894,8 +896,7 @@ int runner_main(int argc, char** argv) {
   else if (cmd == "seed") rc = cmd_seed(argc, argv);
   else if (cmd == "list") rc = cmd_list();
   else if (cmd == "info") rc = cmd_info(argc, argv);
-  fflush(stdout); fflush(stderr);
-  _exit(rc);
+  hard_exit(rc);
 }
 
 } // namespace sim
